@@ -36,7 +36,7 @@ const char *
 Http::ContentLengthInterpreter::findDigits(const char *prefix, const char * const valueEnd) const
 {
     // skip leading OWS in RFC 7230's `OWS field-value OWS`
-    const CharacterSet &whitespace = Http::One::Parser::WhitespaceCharacters();
+    const CharacterSet &whitespace = CharacterSet::WSP;
     while (prefix < valueEnd) {
         const auto ch = *prefix;
         if (CharacterSet::DIGIT[ch])
@@ -56,7 +56,8 @@ Http::ContentLengthInterpreter::goodSuffix(const char *suffix, const char * cons
     if (suffix == end)
         return true;
 
-    for (const CharacterSet &delimiters = Http::One::Parser::DelimiterCharacters();
+    // only OWS may follow the number, even with relaxed_header_parser
+    for (const CharacterSet &delimiters = CharacterSet::WSP;
             suffix < end; ++suffix) {
         if (!delimiters[*suffix])
             return false;
